@@ -1,5 +1,5 @@
 /-
-  `c02 pkgbridge plain=… wbplain=… links=… model=…`  -> ok | differs <what>   ## counts
+  `c02 pkgbridge plain=… wbplain=… links=… model=… cmt=…`  -> ok | differs <what>   ## counts
 
   Ties the package model of `Umya/Model/PackageNode.lean` (theorems `C02_content_types_cover`,
   `C02_package_rels_resolve`, `C02_rel_ids_unique`, `C02_package_no_diagnostics`, `C02_book_decodes`) to the package just
@@ -16,12 +16,22 @@
     relationships         per `.rels` part of the model: (Id, Type, Target, external) as the decoder's `relsOf` reads
                           them from the real part, as a set (a reader looks a relationship up by Id)
 
+  SHEETS WITH COMMENTS (`Umya/Model/PackageNodeCmt.lean`, theorems `C02_cmt_*` of `Thm/C02PkgCmt.lean`) are inside the
+  model: `plain=` says per sheet that nothing BUT comments adds parts (no drawing, table, printer settings, OLE
+  object), `cmt=` that the sheet has comments.  When every sheet is plain in that sense the model skeleton is
+  `skeletonC`: it has the VML and comments parts with the numbers of the smallest-free-index rule (`numbering`), their
+  content types, the `vml` Default, the comments Overrides, and per sheet the vmlDrawing / comments relationships after
+  the hyperlink ones; the comparison is EQUALITY as for a plain workbook, and in addition the `r:id`s of the
+  `<legacyDrawing>` children of every real sheet part are compared with the model's (`SheetC.legacy`: `rId{r}`, r =
+  the counter after the hyperlink loop; none without comments).  The trees of the comments / VML parts are tied by
+  C06's `cmt` requests, not here.
+
   A workbook / sheet that is not plain has further parts, Defaults, Overrides and relationships: there the model
-  skeleton must be CONTAINED in the real one, the sheet's relationships part is not compared, and the rest is
-  counted `outside-model`.
+  skeleton (without any comments part) must be CONTAINED in the real one, the relationships part of a sheet that is
+  not plain or has comments is not compared, and the rest is counted `outside-model`.
 -/
 import Umya.Driver.C02Sheet
-import Umya.Model.PackageNode
+import Umya.Model.PackageNodeCmt
 namespace Umya.Driver.C02Pkg
 open Umya.Spec.Xml Umya.Spec.Sml Umya.Proto Umya.CellXml Umya.CellNode Umya.SheetNode Umya.WorkbookNode Umya.PackageNode
 open Umya.Driver.C02Sheet (Out canon parseListOf parseLink)
@@ -31,6 +41,8 @@ def kindOf (name : List Char) : String :=
   else if name = nTheme then "theme" else if name = nSst then "sharedStrings" else if name = nStyles then "styles"
   else if name = nWorkbookPart then "workbook" else if name = nWorkbookRels then "workbook-rels"
   else if name = nContentTypes then "content-types"
+  else if "xl/drawings/vmlDrawing".toList.isPrefixOf name then "vml"
+  else if "xl/comments".toList.isPrefixOf name then "comments"
   else if isRelsNameL name then "sheet-rels" else "sheet"
 
 def relKey (id type target : String) (ext : Bool) : String := s!"{id}|{type}|{target}|{ext}"
@@ -39,22 +51,29 @@ def sorted (l : List String) : List String := Umya.Driver.C02.sortStrings l
 
 def subsetOf (a b : List String) : Bool := a.all (fun x => b.contains x)
 
-def bridge (parts : Package) (plain : List Bool) (wbplain : Bool) (links : List (List LinkW)) (model : List (List Umya.Driver.C02.CellT)) : String :=
+def bridge (parts : Package) (plain : List Bool) (wbplain : Bool) (links : List (List LinkW)) (model : List (List Umya.Driver.C02.CellT))
+    (cmt : List Bool) : String :=
   let F := Umya.Num.textFmt []
   match writeBook F false model with
   | none => "differs the writer model panics on the in-memory cells"
   | some bx =>
     let hasSst := !bx.sst.isEmpty
     let n := links.length
+    -- inside the model: nothing but comments adds parts; the comments of a workbook that is outside are not modelled
     let allPlain := wbplain && plain.all id && plain.length = n
-    let skel := skeleton links hasSst
+    let flags : List Bool := if allPlain ∧ cmt.length = n then cmt else List.replicate n false
+    let anyCmt := flags.any id
+    let nums := numbering [] [] flags
+    let skel := skeletonC links flags hasSst
     let o : Out := {}
-    let o := if plain.length = n ∧ model.length = n then o else o.diff "sheet counts differ between plain / links / model"
-    let o := o.count (if allPlain then "workbook.plain" else "workbook.outside-model")
+    let o := if plain.length = n ∧ model.length = n ∧ cmt.length = n then o else o.diff "sheet counts differ between plain / links / model / cmt"
+    let o := o.count (if allPlain then (if anyCmt then "workbook.with-comments" else "workbook.plain") else "workbook.outside-model")
+    let o := if allPlain then o.count s!"sheets-with-comments.{(flags.filter id).length}" else o
+    let o := if allPlain ∧ anyCmt ∧ flags.head? = some false then o.count "comments.first-sheet-without" else o
     let o := o.count s!"sheets.{n}"
     let o := o.count (if hasSst then "sst.present" else "sst.absent")
     -- which sheets are plain (1-based K)
-    let sheetPlain : Nat → Bool := fun k => wbplain && (plain.getD (k - 1) false)
+    let sheetPlain : Nat → Bool := fun k => wbplain && (plain.getD (k - 1) false) && (allPlain || !(cmt.getD (k - 1) false))
     let relsSheetNo : List Char → Option Nat := fun nm => (List.range n).find? (fun i => sheetRelsL (i + 1) = nm) |>.map (· + 1)
     -- parts, content types, relationships
     let o := skel.foldl (fun (o : Out) (ps : PartS) =>
@@ -96,7 +115,7 @@ def bridge (parts : Package) (plain : List Bool) (wbplain : Bool) (links : List 
     let o := match (parts.part? "[Content_Types].xml").bind (·.xml) with
       | none => o.diff "[Content_Types].xml missing or malformed"
       | some root =>
-        let m := contentTypesNode n hasSst
+        let m := contentTypesNodeC n hasSst (nums.filterMap (fun p => p.map (·.1))) (nums.filterMap (fun p => p.map (·.2)))
         let dR := sorted ((root.kids "Default").map canon)
         let dM := sorted ((m.kids "Default").map canon)
         let ovR := sorted ((root.kids "Override").map canon)
@@ -110,19 +129,32 @@ def bridge (parts : Package) (plain : List Bool) (wbplain : Bool) (links : List 
         -- every part of the real package has a content type (C02_content_types_cover on the file)
         let missing := (parts.filter (fun (p : Part) => p.name ≠ "[Content_Types].xml" ∧ (contentTypeOf parts p.name).isNone)).map (fun (p : Part) => p.name)
         if missing.isEmpty then o else o.diff s!"parts without content type: {missing.take 3}"
+    -- the `r:id` of `<legacyDrawing>` in every real sheet part against the model's (C02_cmt_legacy_drawing_resolves)
+    let o := if !allPlain then o else
+      (List.range n).foldl (fun (o : Out) i =>
+        let nm := String.ofList (sheetPartL (i + 1))
+        let want : List (Option (List Char)) :=
+          if flags.getD i false then [some (rIdText (hlNext 1 (links.getD i [])))] else []
+        match (parts.part? nm).bind (·.xml) with
+        | none => o.diff s!"{nm} missing or malformed"
+        | some root =>
+          let real := (root.kids "legacyDrawing").map (fun k => k.attr? "r:id".toList)
+          let o := o.count (if want.isEmpty then "legacyDrawing.absent" else "legacyDrawing.present")
+          if real = want then o
+          else o.diff s!"legacyDrawing of {nm}: model {want.map (fun x => x.map String.ofList)} file {real.map (fun x => x.map String.ofList)}") o
     let info := " ".intercalate (o.counts.map (fun p => s!"{p.1}={p.2}"))
     if o.diffs.isEmpty then s!"ok ## {info}" else s!"differs {" | ".intercalate (o.diffs.take 3)} ## {info}"
 
 def handle (parts : Package) (args : List String) : String :=
   match args with
-  | [plain, wbplain, links, model] =>
+  | [plain, wbplain, links, model, cmt] =>
     let dp := Umya.Driver.C01.dropPrefix?
-    match dp "plain=" plain, dp "wbplain=" wbplain, dp "links=" links, dp "model=" model with
-    | some p, some w, some l, some md =>
+    match dp "plain=" plain, dp "wbplain=" wbplain, dp "links=" links, dp "model=" model, dp "cmt=" cmt with
+    | some p, some w, some l, some md, some c =>
       match (l.splitOn "|").mapM (parseListOf parseLink), Umya.Driver.C02.parseModel md with
-      | some ls, some model => bridge parts ((p.splitOn "|").map (· = "1")) (w = "1") (ls.map sortLinks) model
+      | some ls, some model => bridge parts ((p.splitOn "|").map (· = "1")) (w = "1") (ls.map sortLinks) model ((c.splitOn "|").map (· = "1"))
       | _, _ => "bad-op"
-    | _, _, _, _ => "bad-op"
+    | _, _, _, _, _ => "bad-op"
   | _ => "bad-op"
 
 end Umya.Driver.C02Pkg
